@@ -258,6 +258,7 @@ func (rm *ResponseManager) newRequest(ctx context.Context, p peer.ID, request gs
 		signals:        signals,
 		startTime:      time.Now(),
 		responseStream: responseStream,
+		subscriber:     subscriber,
 	}
 
 	// setup query for processing
@@ -371,6 +372,16 @@ func (rm *ResponseManager) startTask(task *peertask.Task, p peer.ID) queryexecut
 	}
 
 	return taskData
+}
+
+// isResponseOf reports whether a notification from the given message subscriber
+// (nil: from anyone) is about the response that currently holds the request ID
+func (rm *ResponseManager) isResponseOf(requestID graphsync.RequestID, s *subscriber) bool {
+	if s == nil {
+		return true
+	}
+	response, ok := rm.inProgressResponses[requestID]
+	return !ok || response.subscriber == s
 }
 
 func (rm *ResponseManager) terminateRequest(requestID graphsync.RequestID) {
